@@ -307,6 +307,14 @@ def run(F, run, tier):
         hits = {k: v for k, v in r["problems"].items() if k.startswith("T3")}
         for key, (what, node, st, labels) in hits.items():
             run.fail("R2.5-T3", P.name, "%s:%s" % (key.split(":", 1)[1], name), F.loc(P.step, node) if node else F.loc(P.step), what)
+        # the multistep formulas (and the estimate, their difference) assume an equally spaced history at the current dt: history entries taken at
+        # an older spacing and read by the formula after dt was rewritten make both solves wrong by O(Δdt·|y'|) while their difference stays small —
+        # the estimator is deceived and an inaccurate step is accepted (rule shared with C03 R3.6 / C01)
+        stale = {k: v for k, v in r["problems"].items() if k.startswith("R3.6:stale-spacing")}
+        for key, (what, node, st, labels) in stale.items():
+            run.fail("R2.5-spacing", P.name, "%s:%s" % (key.split(":", 1)[1], name), F.loc(P.step, node) if node else F.loc(P.step), what)
+        if not stale:
+            run.ok("R2.5-spacing", name, "%s: the history read by the formulas was taken at the current spacing on every explored path" % name)
         if not hits:
             run.ok("R2.5-T3", name, "%s: every roll-back of a rejected start-up returns to the saved (time, state) over %d transitions" % (name, len(r["transitions"])))
     run.assumptions += ["the local error *bound* is numerical and is not decided; only the mechanism is",
